@@ -239,11 +239,18 @@ def parallel_map(fn, items, procs=None):
     # concurrent.futures notices a dead worker (BrokenProcessPool), multiprocessing.Pool.map would wait for ever
     import concurrent.futures
     from concurrent.futures.process import BrokenProcessPool
+    # the forked workers share the parent's pages copy-on-write; a garbage collection in a child would touch (and so copy) every
+    # object the parent holds - with a parent of several GB (thorough tiers) that multiplied the memory by the number of workers
+    import gc
+    gc.collect()
+    gc.freeze()
     try:
         with concurrent.futures.ProcessPoolExecutor(max_workers=min(procs, len(items)), mp_context=ctx) as ex:
             return list(ex.map(fn, items))
     except BrokenProcessPool as e:
         raise MachineryError('a worker process of %s died (killed from outside, e.g. out of memory): %s' % (getattr(fn, '__name__', fn), e))
+    finally:
+        gc.unfreeze()
 
 
 # --------------------------------------------------------------------------- findings / evidence
